@@ -104,6 +104,8 @@ def main(pid, tier, repo=None):
     ctx = Ctx(pid, tier, configs=("workspace",), repo=repo)
     rule_dispatch(ctx)
     specconst.run(ctx, pid)
+    from . import enummap
+    enummap.run(ctx, pid)
     ctx.not_decided("numerical agreement of any kernel with the mathematical definition, or between the generic and vector kernels")
     return ctx.finish(
         "Dispatch agreement only: every transform type the format defines has a handler and the generic, SSE2 and SSE4.1 dispatchers "
